@@ -3,7 +3,7 @@
 TRUST = (
     "Trusted base: A-REAL (floats as exact reals; NaN and +-Inf conflated), A-NP / A-CDF (numpy and scipy.stats as "
     "modelled by the pvc facade -- exercised by concrete replays on real numpy in every run, not proved), A-RESP (a "
-    "response is the tabulation of a respondent set), the Sigma rewrite rules and fact generators (lemmas/SigmaRules.lean), "
+    "response is the tabulation of a respondent set), the Sigma rewrite rules and fact generators (trusted, not machine-checked), "
     "the pvc engine (loader rewrites R1-R4, symbolic facade, path scheduler) and z3. Callee contracts assumed at each "
     "modular cut and per-contract preconditions are listed in the evidence file."
 )
